@@ -207,8 +207,17 @@ def _single_value(agent, algo, obs):
 
 # ------------------------------------------------------------------ implementation runs
 def run_impl(case):
-    return {"agent_batch": run_batch, "ma_route": run_route, "ma_ippo_prep": run_ippo_prep, "ma_assemble": run_assemble,
-            "ma_stack": run_stack}[case["kind"]](case)
+    f = {"agent_batch": run_batch, "ma_route": run_route, "ma_ippo_prep": run_ippo_prep, "ma_assemble": run_assemble,
+         "ma_stack": run_stack}[case["kind"]]
+    try:
+        return f(case)
+    except (RuntimeError, ValueError, IndexError, TypeError, KeyError, AssertionError) as e:
+        # the entry point exists but rejects a legal call: a concrete failing input, not a harness problem
+        import traceback
+        tb = traceback.extract_tb(e.__traceback__)
+        if not any("/agilerl/" in fr.filename for fr in tb):
+            raise
+        return {"err": type(e).__name__, "msg": str(e)[:200]}
 
 
 def sp_tag(sp):
@@ -384,6 +393,8 @@ def coq_term(case, obs):
     k = case["kind"]
     if obs.get("degenerate") or (k == "agent_batch"):
         return None
+    if "err" in obs and k != "ma_ippo_prep":
+        return "false"
     if k == "agent_batch":
         return None                      # oracle only (the network itself is not modelled; see batch_independent)
     if k == "ma_route":
@@ -411,7 +422,8 @@ def coq_term(case, obs):
                 rows.append(f"({gi}, [" + "; ".join(coq_qs(r.tolist()) for r in d) + "])")
             seen = "(Some [" + "; ".join(rows) + "])"
             fixed = _b(_ippo_prep_in_agent_order(case, obs))
-        return (f"check_ippo_prep {fixed} false {_b(case['normalize'])} {_pairs(_groups(names))} {coq_nats(range(len(names)))} "
+        tol = TOL_NORM if (case["normalize"] and uses_inexact_norm({"space": sp, "normalize": True})) else "0"
+        return (f"check_ippo_prep {tol} {fixed} false {_b(case['normalize'])} {_pairs(_groups(names))} {coq_nats(range(len(names)))} "
                 f"{coq_leaf(sp)} {od} {seen}")
     if k == "ma_assemble":
         names, E = case["names"], case["E"]
@@ -468,6 +480,9 @@ def oracle(case, obs):
         elif not obs["actions_consistent"]:
             out.append(Violation("batch-independent", f"batch-action:{case['algo']}:{sp_tag(case['space'])}",
                                  "greedy action in the batch differs from the greedy action of the same observation taken alone"))
+    elif "err" in obs:
+        out.append(Violation("agent-env-consistent", f"{k}:{case.get('algo', 'IPPO')}:raises",
+                             f"{case.get('algo', 'IPPO')} raised {obs['err']}: {obs['msg']} on a legal multi-agent call ({case})"))
     elif k == "ma_route":
         want = _route_expected(case)
         if obs["route"] != want or not obs["shapes_ok"]:
@@ -482,6 +497,27 @@ def oracle(case, obs):
             out.append(Violation("agent-env-consistent", sig,
                                  f"{case['algo']}.get_action with observation dict order {[names[a] for a in order]} (agent_ids {names}, "
                                  f"{case['E']} envs): reported outputs come from (agent*100+env) {obs['route']}, expected {want}"))
+    elif k == "ma_ippo_prep":
+        # the batch of a shared policy: one block of rows per agent of the group (whatever the order of the blocks)
+        from agilerl.utils.algo_utils import preprocess_observation as P
+        names, sp = case["names"], case["space"]
+        space = build_space(sp)
+        per_agent, lead = _ma_obs(case)
+        nE = case["E"] if case["E"] else 1
+        for gi, t in obs["ok"]:
+            g = shared_ids(names)[gi]
+            mem = [a for a, nm in enumerate(names) if group_of(nm) == g]
+            want_shape = [len(mem) * nE] + net_input_shape(sp)
+            blocks = [P(per_agent[a], space, normalize_images=case["normalize"]).numpy().astype(np.float64).reshape(nE, -1) for a in mem]
+            ok = t["shape"] == want_shape
+            if ok:
+                got = np.asarray(t["data"], dtype=np.float64).reshape(len(mem), nE, -1)
+                ok = sorted(b.tolist() for b in got) == sorted(b.tolist() for b in blocks)
+            if not ok:
+                out.append(Violation("agent-env-consistent", "ippo-prep:group-batch",
+                                     f"IPPO.preprocess_observation: batch of shared id {g} has shape {t['shape']}, expected {want_shape} made of "
+                                     f"one block of {nE} rows per agent {mem}"))
+                break
     elif k == "ma_assemble":
         E, w = case["E"], case["width"]
         for a, shape, flat in obs["back"]:
